@@ -411,7 +411,7 @@ def c03(res, tier, seed):
     wd = yv.workdir("C03")
     # the engine as built (ReVM.tla) against the documented semantics (ReMatch.tla) on all small expressions
     for cfg in ("MC_ReVM.cfg", "MC_ReVM_any.cfg", "MC_ReVM_keyed.cfg"):
-        m = yv.tlc("ReVMMC", cfg, wd, timeout=1500, coverage=False)
+        m = yv.tlc("ReVMMC", cfg, wd, timeout=1500, coverage=False, tier=tier)
         if m["violated"]:
             res.violation("TLC: %s in %s" % (m["violated"], cfg), yv.save_replay("C03", "model_" + cfg, {"tlc": m["out"][-4000:]}))
         else:
